@@ -37,8 +37,8 @@ var verifMultigetSchema = []internal.VerifShapeSpec{
 // <!ELEMENT address-data (allprop | prop*)>   content-type, version
 // <!ELEMENT prop EMPTY>                       name, novalue
 var verifAddressDataSchema = []internal.VerifShapeSpec{
-	{Path: "C:address-data", Items: "C:prop* C:allprop?"},
-	{Path: "C:address-data/C:prop", Items: "@name"},
+	{Path: "C:address-data", Items: "C:prop* C:allprop?", Optional: "@content-type? @version?"},
+	{Path: "C:address-data/C:prop", Items: "@name", Optional: "@novalue?"},
 }
 
 // VerifH_C09_WireSchema: the wire structs of addressbook-query,
